@@ -156,7 +156,10 @@ func (c *copier) prepareTargetDir(srcFollowed, src, destPath string, copyDirCont
 	}
 
 	if (!copyDirContents && fiSrc.IsDir() && fiDest != nil) || (!fiSrc.IsDir() && fiDest != nil && fiDest.IsDir()) {
-		destPath = filepath.Join(destPath, filepath.Base(src))
+		// src is relative to the source root and clamped to it (see
+		// rootPath): take the base name of the clamped path, so that a
+		// src ending in ".." cannot move the target out of destPath.
+		destPath = filepath.Join(destPath, filepath.Base(filepath.Join("/", src)))
 	}
 
 	target := filepath.Dir(destPath)
